@@ -21,6 +21,8 @@ def de_casteljau(P:list, t:float):
         raise InvalidRangeArgumentError("t", t, "in [0,1]")
     coeffs = [x for x in P]
     order = len(P)-1
+    if order == 0:
+        return Vec(coeffs[0]).copy() # never hand out the control point object itself
     for j in range(order):
         for i in range(order - j):
             coeffs[i] = t*coeffs[i+1] + (1-t)*coeffs[i]
